@@ -141,6 +141,24 @@ claim("C10",
       "blocks, all orders inside classes of size>=3) - exact for implementations that order by size after shuffling",
       "DESIGN.md 4/C10")
 
+claim("C11",
+      "inductive step over swap histories: the pre-state is any clean motif network inside the bound (motif member ids "
+      "and annotation extras are solver variables), rewire() performs one accepted swap with every edge draw forked and "
+      "the target entries / Metropolis draw symbolic, and the post-state must again be a clean network of the same "
+      "shapes with the same vertices, annotations, per-topology degrees, no self-loop; input untouched; defaults construct",
+      "bounded: placements on <=4-5 (quick) / 6 vertices plus fixed consistent templates up to 12 vertices, <=6/9 RNG "
+      "draws; failed attempts are pruned after the hook has verified that the state repeats; ONE KNOWN FINDING is listed "
+      "in known_findings.txt (new corner edges inherit the opposite motif id) and printed as KNOWN-FINDING",
+      "DESIGN.md 4/C11, 5")
+claim("C12",
+      "same exploration with a lazy symbolic target: first lookup of a pairing forks absent / present(w>=0); every edge "
+      "created by an accepted swap must pair excess degrees whose entry is present and provably positive on that path, "
+      "and every evaluated proposal must be accepted iff r < prod(new)/prod(old) (both directions, QF_NRA)",
+      "the statistical sub-claim 'distance to the target decreases' is NOT decided (false for single RNG outcomes even "
+      "for a correct sampler); decided instead: the hard pairing rule and the Metropolis rule; bounded as C11; wraps the "
+      "instance method swap_condition to observe proposals",
+      "DESIGN.md 4/C12")
+
 
 def main():
     props = [json.loads(l)["id"] for l in open(os.path.join(ROOT, "properties.jsonl"))]
